@@ -310,6 +310,14 @@ class PolyEnv:
         if isinstance(e, ast.IfExp):
             return f"ifexp({self._arg(e.test)}, {self._arg(e.body)}, {self._arg(e.orelse)})"
         if isinstance(e, ast.Compare):
+            if len(e.ops) == 1:
+                # a > b is b < a; the operands of == / != are unordered
+                op, a, b = type(e.ops[0]).__name__, self._arg(e.left), self._arg(e.comparators[0])
+                if op in ("Gt", "GtE"):
+                    op, a, b = {"Gt": "Lt", "GtE": "LtE"}[op], b, a
+                elif op in ("Eq", "NotEq") and b < a:
+                    a, b = b, a
+                return f"cmp[{op}]({a}, {b})"
             ops = ",".join(type(o).__name__ for o in e.ops)
             return f"cmp[{ops}]({', '.join(self._arg(x) for x in [e.left] + e.comparators)})"
         if isinstance(e, ast.Tuple):
